@@ -312,3 +312,50 @@ def run_arena_reset(chk, unit="asmjit/core/codeholder.cpp", rex=r"asmjit::CodeHo
 def load_functions_(f):
     from .cfg import load_functions
     return load_functions(f)
+
+
+def run_wrapping_bounds(chk, units, fixture=None):
+    """R-NO-WRAPPING-BOUND-TEST: a bounds test does not add two caller-controlled sizes"""
+    R = "R-NO-WRAPPING-BOUND-TEST"
+    chk.rule(R, "in the JIT allocator / section copy functions no relational test has an operand `a + b` in which both a and b are size_t / "
+                "uint64_t parameters of the function (directly): such a sum wraps for large arguments and the test then accepts a range that "
+                "lies outside the object (the safe form is `a > n || n - a < b`); a fixture with one wrapping and one safe test is analysed on "
+                "every run to show that the matcher still fires")
+    def scan(fn):
+        pd = {p["did"]: p for p in fn.params if re.search(r"size_t|uint64_t|unsigned long", p["ty"]) and "*" not in p["ty"] and "&" not in p["ty"]}
+        out = []
+        for i, x in fn.ex.items():
+            if x["k"] == "binop" and x["op"] in ("<", "<=", ">", ">="):
+                for side in (x["lhs"], x["rhs"]):
+                    y = fn.e(fn.strip(side))
+                    if y is not None and y["k"] == "binop" and y["op"] == "+":
+                        a, b = fn.e(fn.strip(y["lhs"])), fn.e(fn.strip(y["rhs"]))
+                        if a is not None and b is not None and a["k"] == "ref" and b["k"] == "ref" and a.get("did") in pd and b.get("did") in pd:
+                            out.append(i)
+        return out
+    n = 0
+    for unit, rex in units:
+        f = chk.facts(unit, funcs=rex)
+        for fn in load_functions_(f):
+            if not fn.file.endswith(unit.split("/")[-1]):
+                continue
+            if not any(re.search(r"size_t|uint64_t", p["ty"]) for p in fn.params):
+                continue
+            n += 1
+            bad = scan(fn)
+            short = fn.name.replace("asmjit::", "")
+            chk.ob(R, "%s/%d" % (short, len(fn.params)), not bad, loc=fn.loc(bad[0]) if bad else "%s:%d" % (unit, fn.line),
+                   detail="`%s` compares a sum of two caller-supplied sizes: for arguments close to SIZE_MAX the sum wraps and the range is accepted" %
+                          (" ".join(fn.text(bad[0]).split())[:60] if bad else ""), key="wrapbound|%s" % short)
+    chk.floor(R + ":functions", n, 10)
+    if fixture:
+        ff = core_astfacts(fixture)
+        got = {}
+        for fn in load_functions_(ff):
+            got[fn.name.split("::")[-1]] = len(scan(fn))
+        chk.need(got.get("write_wrapping") == 1 and got.get("write_safe") == 0, "the wrapping-bound matcher no longer recognises its positive example (%s)" % got)
+
+
+def core_astfacts(path):
+    from . import core
+    return core.astfacts(path, funcs=r"fixture::[a-z_]+$")
